@@ -204,7 +204,7 @@ def _models(first=None):
 
     _PLAIN = ("array", "pyiter", "tuple", "closure", "fn", "()", None)
 
-    def _drain(ex, v, limit=100000):
+    def _drain(ex, v, limit=20000):
         """items of a user-defined iterator struct (e.g. BitIteratorBE): its own `next` is run until it answers None"""
         d = ex.deref(v) if isinstance(v, SX.Ref) else v
         if not (isinstance(d, SX.Obj) and isinstance(d.adt, str) and d.adt not in _PLAIN and d.variant in (None, d.adt.rsplit("::", 1)[-1]) and "::" in d.adt):
@@ -224,6 +224,8 @@ def _models(first=None):
                 return out
             if not (isinstance(r, SX.Obj) and r.variant == "Some"):
                 return None
+            if r.fields.get(0) is SX.TOP:
+                return None          # the iterator's state is no longer concrete: it cannot be drained
             out.append(r.fields[0])
         return None
 
@@ -570,6 +572,7 @@ def _models(first=None):
 def evaluate(facts, fn, n, two_adicity, q, unit="ws"):
     """-> ('ok', [Q per output slot]) | ('noverdict', reason)"""
     ex = SX.Engine(facts, unit, _models(), env={"SMALL_SUBGROUP_BASE": SX.some(q)}, max_paths=4, max_depth=6, inline_limit=600, max_visits=200000)
+    ex.strict_flow = True
     arr = SX.Obj(adt="array", fields={i: Q.var("a%d" % i) for i in range(n)})
     args = [SX.Ref(SX.Cell(arr)), Q.var("w"), two_adicity]
     if fn.d["argc"] != 3:
@@ -646,6 +649,7 @@ R2_THOROUGH = R2_QUICK + [32, 64]
 def evaluate_radix2(facts, fn, n):
     """fft_helper_in_place / ifft_helper_in_place of the radix-2 domain on a symbolic domain of size n (generator w, order II)"""
     ex = SX.Engine(facts, "ws", _models(), max_paths=4, max_depth=8, inline_limit=600, max_visits=400000)
+    ex.strict_flow = True
     arr = SX.Obj(adt="array", fields={i: Q.var("a%d" % i) for i in range(n)})
     logn = n.bit_length() - 1
     # Radix2EvaluationDomain { size, log_size_of_group, size_as_field_element, size_inv, group_gen, group_gen_inv, offset, offset_inv, offset_pow_size }
@@ -723,6 +727,7 @@ def check_root_order(res, facts):
         verdict = None
         for n in ns:
             ex = SX.Engine(facts, "ws", _models(), env=env, max_paths=4, max_depth=6, inline_limit=400, max_visits=5000)
+            ex.strict_flow = True
             try:
                 paths = [p for p in ex.run(fn, [n]) if "panic" not in p.flags]
             except RecursionError:
@@ -833,6 +838,7 @@ def check_degree_aware(res, facts, tier):
     for n, m in sizes:
         key = "ark_poly|radix2::degree_aware_fft_in_place|n=%d, %d coefficients" % (n, m)
         ex = SX.Engine(facts, "ws", _models(_degree_aware_first), max_paths=4, max_depth=8, inline_limit=600, max_visits=400000)
+        ex.strict_flow = True
         arr = SX.Obj(adt="array", fields={i: Q.var("a%d" % i) for i in range(m)})
         logn = n.bit_length() - 1
         dom = SX.Obj(adt="ark_poly::domain::radix2::Radix2EvaluationDomain",
